@@ -180,7 +180,21 @@ pub fn gen_case(prop: &str, r: &mut SplitMix64) -> FwCase {
     } else {
         (0.0, 0.0)
     };
-    let (t0, calls) = gen_history(r, n, &sc.hp);
+    let (mut t0, mut calls) = gen_history(r, n, &sc.hp);
+    // The crate's own clock (std::time): the properties are about the framework as users run it, and the
+    // time traits' std implementations (from_micros, saturating_duration_since, the f64 quotient of two
+    // durations) are code of the crate. A share of the cases of the time-dependent properties runs there;
+    // ticks become nanoseconds (scaled so that whole seconds and sub-second parts both occur), capped
+    // below 2^58 ns so that sums of a history's blocked times stay within 64 bits.
+    let std = matches!(prop, "C01" | "C03" | "C05") && r.chance(1, 3);
+    if std {
+        let mult = *r.pick(&[1u64, 1000, 1000, 1_000_000, 1_000_000_007]);
+        let conv = |t: u64| (t as u128 * mult as u128).min((1u128 << 58) - 1) as u64;
+        t0 = conv(t0);
+        for c in calls.iter_mut() {
+            c.0 = conv(c.0);
+        }
+    }
     FwCase {
         machines,
         fpad,
@@ -189,11 +203,16 @@ pub fn gen_case(prop: &str, r: &mut SplitMix64) -> FwCase {
         calls,
         script,
         seed: r.next(),
+        std,
     }
 }
 
 /// returns a description of the violation, if the run violates the property
 pub fn monitor(prop: &str, c: &FwCase, run: &FwRun) -> Option<String> {
+    if c.std && !matches!(prop, "C01" | "C03") {
+        // the other monitors read durations as microseconds; std cases are judged by the differential run
+        return None;
+    }
     match prop {
         "C01" => mon_c01(c, run),
         "C04" => mon_c04(c, run),
@@ -490,10 +509,17 @@ fn mon_c03(c: &FwCase, run: &FwRun) -> Option<String> {
                     continue;
                 }
                 let m = &c.machines[i];
-                let ok = (*replace && active)
-                    || blocked < m.allowed_blocked_microsec
-                    || (share_below(m.max_blocking_frac, blocked, elapsed)
-                        && share_below(c.fblk, blocked, elapsed));
+                // std clock: ticks are nanoseconds, and the share is the quotient of two as_secs_f64()
+                // values, a few ulps from the exact one (theorem share_below_std_tolerance: within 2^-50)
+                let (allowed, tol) = if c.std { ((m.allowed_blocked_microsec as u128) * 1000, 1.0 + 1.0 / (1u64 << 49) as f64) } else { (m.allowed_blocked_microsec as u128, 1.0) };
+                let below = |f: f64| -> bool {
+                    if c.std {
+                        !(f > 0.0) || (elapsed == 0 && blocked == 0) || (elapsed > 0 && ratio_below_wide(blocked, elapsed, f * tol))
+                    } else {
+                        share_below(f, blocked, elapsed)
+                    }
+                };
+                let ok = (*replace && active) || (blocked as u128) < allowed || (below(m.max_blocking_frac) && below(c.fblk));
                 if !ok {
                     return Some(format!(
                         "call {}: BlockOutgoing(replace={}) for machine {}: blocking active={}, blocked {} us (allowed {}), elapsed {} us, machine limit {}, framework limit {}",
@@ -787,8 +813,8 @@ fn finish_c10_pair(r: &mut SplitMix64, machines: Vec<maybenot::Machine>, m: mayb
         }
     };
     let solo_calls = calls.iter().map(|(t, evs)| (*t, evs.iter().map(project).collect())).collect();
-    let combined = FwCase { machines, fpad: 0.0, fblk: 0.0, t0, calls, script: vec![], seed: r.next() };
-    let solo = FwCase { machines: vec![m], fpad: 0.0, fblk: 0.0, t0, calls: solo_calls, script: vec![], seed: r.next() };
+    let combined = FwCase { machines, fpad: 0.0, fblk: 0.0, t0, calls, script: vec![], seed: r.next(), std: false };
+    let solo = FwCase { machines: vec![m], fpad: 0.0, fblk: 0.0, t0, calls: solo_calls, script: vec![], seed: r.next(), std: false };
     (combined, solo, pos)
 }
 
